@@ -44,6 +44,7 @@ package crlrepository
 // ---- entry bookkeeping
 
 //@ func Repository.getEntrySync
+//@   writes nothing
 //@   props C01 C09 C13
 //@   requires repoOK(R) && unheld(R.crlRepositoryLock)
 //@   assigns L.held
@@ -57,18 +58,21 @@ package crlrepository
 //@   ensures sameLocks()
 
 //@ func Repository.isEntryLoaded
+//@   writes nothing
 //@   props C13 C10
 //@   requires repoOK(R) && entryShell(entry) && unheld(entry.entryLock)
 //@   assigns L.held, crlrepository.Entry.CRLStore, crlrepository.Entry.Loaded, crlrepository.Entry.LastUpdateSignatureVerifyFailed, crlrepository.Entry.LastUpdateSignature, crlrepository.Entry.Chains
 //@   ensures sameLocks() && entryShell(entry)
 
 //@ func Repository.isEntryPresentAndLoaded
+//@   writes nothing
 //@   props C10 C13
 //@   requires repoOK(R) && unheld(R.crlRepositoryLock) && norwlocks()
 //@   assigns L.held, H.crlrepository.Entry
 //@   ensures sameLocks()
 
 //@ func Repository.getCurrentIdentifiers
+//@   writes nothing
 //@   props C01 C13
 //@   requires repoOK(R) && unheld(R.crlRepositoryLock)
 //@   assigns L.held, Repository.crlRepository, M.map[string]*crlrepository.Entry, E.string
@@ -116,6 +120,7 @@ package crlrepository
 //@   ensures err == nil && ret != nil && chainsOK(ret)
 
 //@ func Repository.getCrlUpdateInformation
+//@   writes nothing
 //@   props C08 C13
 //@   requires repoOK(R) && entryShell(entry) && unheld(entry.entryLock)
 //@   assigns L.held, crlrepository.Entry.CRLStore, crlrepository.Entry.Loaded, crlrepository.Entry.LastUpdateSignatureVerifyFailed, crlrepository.Entry.LastUpdateSignature, crlrepository.Entry.Chains, X.fs, fresh:E.core.CertificateChain, fresh:E.core.CertificateChainEntry
@@ -123,6 +128,7 @@ package crlrepository
 //@   ensures r2 == nil ==> r0 != nil && r1 != nil && chainsOK(r1)
 
 //@ func Repository.updateEntry
+//@   writes crlrepository.Entry.CRLStore
 //@   props C08 C09 C13
 //@   requires repoOK(R) && entryShell(entry) && unheld(entry.entryLock) && storeOK(store) && isTempStore(store)
 //@   ensures closableOK(store)
@@ -132,6 +138,7 @@ package crlrepository
 // ---- intake paths (C04 C08 C11 C16)
 
 //@ func Repository.loadCRL
+//@   writes crlrepository.Entry.Loaded, crlrepository.Entry.Chains
 //@   props C04 C11 C12 C13 C16 C20
 //@   requires repoOK(R) && entryShell(entry) && chains != nil && chainsOK(chains)
 //@   requires[C13] entry_lock_held: wheld(entry.entryLock)
@@ -147,6 +154,7 @@ package crlrepository
 //@   ensures chains_untouched: old(chains != nil && chainsOK(chains)) ==> chainsOK(chains)
 
 //@ func Repository.loadActively
+//@   writes crlrepository.Entry.Loaded, crlrepository.Entry.Chains
 //@   props C10 C13 C15 C16
 //@   ensures[C15] locations_recorded_before_the_first_load: called(Repository.loadCRL#any) ==> called(CRLStore.UpdateCRLLocations#1) && res(CRLStore.UpdateCRLLocations#1) == nil
 //@   requires repoOK(R) && entryShell(entry) && unheld(entry.entryLock) && chains != nil && chainsOK(chains) && crlLocations != nil
@@ -155,6 +163,7 @@ package crlrepository
 //@   ensures chains_untouched: old(chains != nil && chainsOK(chains)) ==> chainsOK(chains)
 
 //@ func Repository.updateCrlEntry
+//@   writes crlrepository.Entry.CRLStore, crlrepository.Entry.LastUpdateSignatureVerifyFailed, crlrepository.Entry.LastUpdateSignature, crlrepository.Repository.crlRepository
 //@   props C04 C08 C12 C13 C15 C16 C20
 //@   requires repoOK(R) && entryShell(entry) && unheld(entry.entryLock) && unheld(R.crlRepositoryLock) && norwlocks()
 //@   requires newChains != nil ==> chainsOK(newChains)
@@ -191,6 +200,7 @@ package crlrepository
 //@   ensures chains_untouched: old(chains != nil && chainsOK(chains)) ==> chainsOK(chains)
 
 //@ func Repository.tryUpdateSignatureCertFromChain
+//@   writes crlrepository.Entry.LastUpdateSignatureVerifyFailed
 //@   props C13
 //@   requires repoOK(R) && entryShell(entry) && chains != nil && chainsOK(chains)
 //@   requires[C13] entry_lock_not_held: unheld(entry.entryLock)
@@ -201,6 +211,7 @@ package crlrepository
 // ---- lookup (C01 C09 C10 C11)
 
 //@ func Repository.checkCrl
+//@   writes nothing
 //@   props C01 C04 C08 C09 C11 C13 C16
 //@   requires repoOK(R) && norwlocks() && certificate != nil
 //@   assigns L.held, crlrepository.Entry.CRLStore, crlrepository.Entry.Loaded, crlrepository.Entry.LastUpdateSignatureVerifyFailed, crlrepository.Entry.LastUpdateSignature, crlrepository.Entry.Chains, X.fs, E.uint8, X.stream, X.spos
@@ -214,6 +225,7 @@ package crlrepository
 //@   ensures[C01,C09] loaded_entry_is_consulted: called(Repository.getEntrySync#1) && res(Repository.getEntrySync#1) != nil && called(RWMutex.RLock#1) && res(Repository.getEntrySync#1).Loaded ==> called(CRLStore.GetCertRevocationStatus#1)
 
 //@ func Repository.IsRevoked
+//@   writes nothing
 //@   props C01 C09 C10 C11 C13
 //@   requires repoOK(R) && norwlocks() && certificate != nil
 //@   assigns L.held, crlrepository.Entry.CRLStore, crlrepository.Entry.Loaded, crlrepository.Entry.LastUpdateSignatureVerifyFailed, crlrepository.Entry.LastUpdateSignature, crlrepository.Entry.Chains, H.crlrepository.Repository.crlRepository, M.map[string]*crlrepository.Entry, crlstore.MapStore.Map, M.map[string][]uint8, crlstore.LevelDbStore.Db, H.crlloader.MultiSchemesCRLLoader, H.crlloader.URLLoader, H.crlloader.FileLoader, X.ldbhas, X.fs, X.net, X.retry, X.stream, X.spos, X.hacc, X.hkind, E.uint8, E.any, E.string, fresh:E.*core.CertificateChainEntry, fresh:E.core.CertificateChain, fresh:E.core.CertificateChainEntry
